@@ -115,12 +115,74 @@ def body(run):
             run.add_violation('reader accepted a non-covering reference' if accepted else 'reader rejected a covering reference',
                               desc, expected=f'contained={contained}', observed=dict(covers_bounds=obs, constructed=accepted),
                               signature=dict(kind='cover', accepted=accepted, contained=contained))
+    # ---- different coordinate systems ("for any ... coordinate systems"): site grids without an EPSG code, neighbouring UTM-like zones.  The
+    #      footprints are compared on the ground: the source's bounds transformed (densified) into the reference's CRS must lie inside / reach
+    #      outside the reference bounds by a clear margin (>= 3 reference pixels; the raw coordinate numbers of the two systems differ by more)
+    from rasterio.crs import CRS
+    from rasterio.warp import transform as warp_xy, transform_bounds
+    from homonim import errors, RasterFuse, RasterCompare
+    from homonim.raster_pair import RasterPairReader
+    crng = run.rng('cover-crs')
+
+    def tmerc(lon0):
+        return CRS.from_proj4(f'+proj=tmerc +lat_0=0 +lon_0={lon0} +k=1 +x_0=0 +y_0=0 +datum=WGS84 +units=m +no_defs')
+    for k in range(run.scale(12, 60)):
+        dlon = crng.choice([0.001, 0.002, -0.001, -0.0015])
+        kind = crng.choice(['site', 'site', 'utm-site'])
+        ref_crs = tmerc(25.0) if kind == 'site' else CRS.from_epsg(32735)
+        src_crs = tmerc(25.0 + dlon) if kind == 'site' else tmerc(27.0 + dlon)
+        ref_res, src_res = 10.0, crng.choice([5.0, 10.0, 20.0])
+        ref_shape = (crng.randint(40, 60), crng.randint(40, 60))
+        x0, y0 = (crng.randint(5, 50) * 100.0, -3650000.0 + crng.randint(0, 50) * 100.0) if kind == 'site' else (500000.0 + crng.randint(5, 50) * 100.0, 6350000.0 + crng.randint(0, 50) * 100.0)
+        side = crng.choice(['in', 'in', 'L', 'R', 'T', 'B'])
+        m = crng.choice([4, 6]) * ref_res               # clear margin on every side / overhang on the chosen side
+        l, t = x0 + m, y0 - m
+        r, b = x0 + ref_shape[1] * ref_res - m, y0 - ref_shape[0] * ref_res + m
+        if side == 'L':
+            l = x0 - m
+        elif side == 'R':
+            r = x0 + ref_shape[1] * ref_res + m
+        elif side == 'T':
+            t = y0 + m
+        elif side == 'B':
+            b = y0 - ref_shape[0] * ref_res - m
+        # the source grid: upper-left corner at the image of (l, t) in the source CRS
+        (sx,), (sy,) = warp_xy(ref_crs, src_crs, [l], [t])
+        w_px, h_px = max(2, round((r - l) / src_res)), max(2, round((t - b) / src_res))
+        rfn, sfn = run.work / 'c16m_ref.tif', run.work / 'c16m_src.tif'
+        synth.write_tif(rfn, np.ones((1, *ref_shape), 'float32'), Affine(ref_res, 0, x0, 0, -ref_res, y0), crs=ref_crs)
+        synth.write_tif(sfn, np.ones((1, h_px, w_px), 'float32'), Affine(src_res, 0, sx, 0, -src_res, sy), crs=src_crs)
+        gl, gb, gr, gt = transform_bounds(src_crs, ref_crs, sx, sy - h_px * src_res, sx + w_px * src_res, sy, densify_pts=21)
+        margins = [gl - x0, y0 - gt, x0 + ref_shape[1] * ref_res - gr, gb - (y0 - ref_shape[0] * ref_res)]
+        if all(mm > 3 * ref_res for mm in margins):
+            contained = True
+        elif any(mm < -3 * ref_res for mm in margins):
+            contained = False
+        else:
+            continue
+        which = ['reader', 'fuse', 'compare'][k % 3]
+        cls = dict(reader=RasterPairReader, fuse=RasterFuse, compare=RasterCompare)[which]
+        try:
+            cls(sfn, rfn)
+            accepted = True
+        except errors.ImageContentError:
+            accepted = False
+        desc = dict(ref=dict(crs=ref_crs.to_string()[:80], res=ref_res, origin=[x0, y0], shape=list(ref_shape)),
+                    src=dict(crs=src_crs.to_string()[:80], res=src_res, origin=[sx, sy], shape=[h_px, w_px]), overhang_side=side,
+                    ground_margins_in_ref_pixels=[round(mm / ref_res, 2) for mm in margins], constructor=which)
+        sides['crs:' + side] = sides.get('crs:' + side, 0) + 1
+        run.count_case(('crs', k), True, desc if k < 2 else None)
+        if accepted != contained:
+            run.add_violation('reader accepted a non-covering reference' if accepted else 'reader rejected a covering reference',
+                              desc, expected=f'contained={contained}', observed=dict(constructed=accepted),
+                              signature=dict(kind='cover', accepted=accepted, contained=contained, mixed_crs=True))
     failing, nt = run.corr('cover', 'Corr.CheckC16', cases)
     for k in failing[:5]:
         run.add_break('correspondence-break', 'covers_bounds differs from Grid.Cover.covers (or rasterio window not exact on dyadic geometry)', metas[k])
     run.cov['rule'] = ('source footprints placed with a chosen overhang (-3 .. +5 px, incl. 0 and 1/8 px) on each of the four sides of the '
                        'reference, 75 % dyadic (all doubles exact), south-up storage every 7th, constructors RasterPairReader/RasterFuse/'
-                       'RasterCompare in turn; non-trivial = some side overhangs or touches; distinct = distinct geometry pair')
+                       'RasterCompare in turn; plus pairs in different coordinate systems (site grids without EPSG code, UTM vs site grid) judged on the ground with >= 3 px margins; '
+                       'non-trivial = some side overhangs or touches; distinct = distinct geometry pair')
     run.extra['input_distribution'] = dict(overhang_sides=sides, model_nontrivial=nt)
     run.trusted += ['rasterio window()/bounds float arithmetic and WarpedVRT bounds are observed (exactness checked on dyadic geometries)']
 
